@@ -63,6 +63,8 @@ def run_case(rng, res, idx, tier):
                 A, G = ufac[str(li)]
                 kaps.append(rm.kappa_eigen(A.double(), G.double(), spec['damping']))
             base_tol = max(kh.tol_for(fakecfg, k_, 16) for k_ in kaps)
+            if spec.get('fdt'):
+                base_tol += max(kaps) * 256 * float(torch.finfo(getattr(torch, spec['fdt'])).eps) * (st + 1)   # factors averaged in another order in low precision
             # factors on the inverse workers
             for r in ranks:
                 for name, (A, G) in run.results[r]['factors'][st].items():
@@ -70,7 +72,8 @@ def run_case(rng, res, idx, tier):
                     UA, UG = ufac[str(li)]
                     res.count('factor_checks')
                     ea, eg = kh.rel_err(A.double(), UA.double()), kh.rel_err(G.double(), UG.double())
-                    if A.shape != UA.shape or G.shape != UG.shape or not (ea <= 1e-9 and eg <= 1e-9):
+                    ftol = 1e-9 if A.dtype == torch.float64 else 256 * float(torch.finfo(A.dtype).eps) * (st + 1)
+                    if A.shape != UA.shape or G.shape != UG.shape or A.dtype != UA.dtype or not (ea <= ftol and eg <= ftol):
                         return res.violation(f'stage {stage}, step {st}, layer {name} ({kinds[li]}-parallel): factors on inverse worker {r} differ from the unsharded layer\'s '
                                              f'(A {tuple(A.shape)} vs {tuple(UA.shape)} rel {ea:.2e}; G {tuple(G.shape)} vs {tuple(UG.shape)} rel {eg:.2e})', case, stage=stage, step=st)
             # gradients shard by shard
@@ -109,7 +112,7 @@ def run_case(rng, res, idx, tier):
                             if not torch.allclose(b, b2, rtol=1e-12, atol=0):
                                 return res.violation(f'stage {stage}, step {st}: the replicated bias of row-parallel layer {li} differs between model-parallel peers {r} and {r2}', case, stage=stage, step=st)
     if mp > 1:
-        res.nontrivial.add(stable_hash(pp, dp, mp, spec['blocks'], spec['bias'], clip_active))
+        res.nontrivial.add(stable_hash(pp, dp, mp, spec['blocks'], spec['biases'], clip_active))
     res.add('topologies', f'{pp}x{dp}x{mp}')
     res.add('schedules', run.schedule_hash())
     res.count('events', len(run.trace))
